@@ -655,8 +655,17 @@ func TestReuse(t *testing.T) {
 					}
 					s.Class("marshal-before-reuse")
 				}
+				// the application keeps the first decoded VALUE (a copy of the struct, sharing its slices, as in
+				// `list = append(list, *req)`) while the object is reused for the next message
+				kept := reflect.New(reflect.ValueOf(obj).Elem().Type())
+				kept.Elem().Set(reflect.ValueOf(obj).Elem())
 				var ok bool
-				if o := rt.GuardLite(func() { ok = c.into(obj, next) }); o.Panic != nil || !ok {
+				o := rt.GuardLite(func() { ok = c.into(obj, next) })
+				if can, err := c.canonical(kept.Interface(), prev); err != nil || !bytes.Equal(can, prev) {
+					rt.Fail(t, "C04/"+c.name+"/reuse-changes-kept-value", "a value decoded from %s and kept (struct copy) while its object decoded %s now reads %s (%v)", rt.Hex(prev), rt.Hex(next), rt.Hex(can), err)
+					return
+				}
+				if o.Panic != nil || !ok {
 					s.Class("second-rejected")
 					return
 				}
